@@ -258,6 +258,7 @@ func GenConc(seed uint64, prop, target string) (*Scenario, map[string]int64) {
 	nshared := 1 + r.Intn(2)
 	sg.sc = &Scenario{Format: 1, Property: prop, Engine: "conc", Target: target, Seed: seed, NSlots: nshared + ntasks}
 	g.Awkward = r.P(250)
+	g.NoHuge = true
 	sg.genCfg()
 	sg.sc.Cfg.Warm = r.Bool()
 	sg.genBufs(80)
